@@ -176,6 +176,8 @@ def gen_c12(r, quick):
          'Z': 0.2, 'R': 0.2, 'G': 0.2, 'L': 0.2}
     for _ in range(1500 if quick else 10000):
         cfg = cl.default_cfg(r, handles=1, mt=r.choice([0, 1, 2, 3]))
+        if r.random() < 0.2:
+            cfg['rtu'] = 1
         cases.append((cfg, cl.gen_random(r, cfg, r.choice([6, 9, 12]), w, prefix=cl.connected_prefix())))
     return cases
 
